@@ -53,6 +53,9 @@ const (
 	w1SaltPartitionMode
 	w1SaltCorrupt
 	w1SaltCorruptAmt
+	w1SaltPause
+	w1SaltPauseMode
+	w1SaltPauseYields
 )
 
 type w1Result struct {
@@ -74,7 +77,8 @@ type w1Call struct {
 	conn    *w1Conn
 	dup     bool // duplicate copy of a request: its response goes nowhere
 	payload *w1Payload
-	corrupt bool // the simulator damaged the compressed bucket payload of this request (a duplicate carries the same bytes)
+	corrupt bool     // the simulator damaged the compressed bucket payload of this request (a duplicate carries the same bytes)
+	pause   *w1Pause // handler-pause schedule of this request (nil: the handler runs through), see w1_pause_test.go
 
 	// under w.mu
 	done      bool // the client-side outcome is decided
@@ -236,6 +240,15 @@ func (c *w1Client) Do(ctx context.Context, network string, address string, req *
 			w.recLocked(w1Rec{typ: w1RecCorrupt, agent: inst.agent, agentGen: inst.gen, replica: c.replica, repGen: call.repGen, kind: kind, T: T, spare: spare, attempt: call.attempt, note: how})
 		} else {
 			w.probeLocked("harness_corruption_candidates_all_decodable")
+		}
+	}
+	if !dropReq && !call.corrupt && kind == w1KindHistoric && w.cfg.handlerPause != 0 {
+		// handler-pause schedule (not a fault): the request arrives in the second before the boundary at
+		// which this replica's ticker next hands a bucket of its own to an inserter, and its handler
+		// pauses between two rows until that boundary
+		if p, extra := w.planPause(c.replica, call.payload, time.Now().Add(reqDelay), amount); p != nil {
+			call.pause = p
+			reqDelay += extra
 		}
 	}
 	dup := !dropReq && kind <= w1KindHistoric && hit(w1SaltDup, f.dup)
@@ -463,19 +476,54 @@ func (w *w1World) deliver(call *w1Call, delay time.Duration) {
 	hctx.Request = append([]byte(nil), call.body...)
 	now := time.Now()
 	w1SetRequestTime(hctx, now)
-	err := agg.handleClient(context.Background(), hctx)
+	pause := call.pause
+	if pause != nil && !w.pauseBegin(pause, r, agg) {
+		pause = nil
+		w.mu.Lock()
+		w.probeLocked("handler_pause_skipped_replica_has_a_paused_handler")
+		w.mu.Unlock()
+	}
+	var err error
+	func() {
+		if pause != nil {
+			defer w.pauseEnd(r)
+		}
+		err = agg.handleClient(context.Background(), hctx)
+	}()
 	rec := w1Rec{typ: w1RecDeliver, agent: a, agentGen: call.inst.gen, replica: r, repGen: call.repGen, kind: call.kind, T: call.T, spare: call.spare, attempt: call.attempt, dup: call.dup, at: now, corrupt: call.corrupt}
 	rec.hasMarker = call.payload != nil && call.payload.hasMarker
 	if hctx.LongpollStarted() {
 		lh := rpc.LongpollHandle{QueryID: call.qid, CommonConn: call.conn}
 		rec.accepted = true
-		rec.where, rec.bucketTime, rec.oldest, rec.newest = w1FindLongpoll(agg, lh)
+		paused := pause != nil && pause.paused
+		taken := false
+		if paused {
+			// The handler paused between two rows. Its bucket may have been taken by the ticker or an inserter
+			// while it was in flight (they wait for the handler, then insert and answer), so the look after
+			// the handler returned races with the answer. The bucket the handler was merging into (the one
+			// whose read lock it held) was identified at the pause, on the handler's own goroutine.
+			rec.where, rec.bucketTime, rec.oldest, rec.newest = pause.where, pause.bucketTime, pause.oldest, pause.newest
+			taken = w1BucketTaken(agg, pause.bucket)
+		} else {
+			rec.where, rec.bucketTime, rec.oldest, rec.newest = w1FindLongpoll(agg, lh)
+		}
 		w.mu.Lock()
-		if rec.where == "none" && !call.conn.isPending() {
+		if !paused && rec.where == "none" && !call.conn.isPending() {
 			rec.where = "answered" // inserted (or cancelled) before we could look: nothing to read
 		}
+		if pause != nil && pause.skip != "" {
+			w.probeLocked("handler_pause_skipped_" + pause.skip)
+		}
+		if paused {
+			w.probeLocked("handler_paused_between_rows_until_second_boundary")
+			if taken {
+				w.probeLocked("paused_handler_overlapped_taking_of_its_" + pause.where + "_bucket")
+			}
+		}
 		w.recLocked(rec)
-		gone := call.cancelled || call.dup
+		// a paused handler is in flight for up to a second: the client side of the call may have ended
+		// meanwhile (partition, crash of either side), and the connection with it
+		gone := call.cancelled || call.dup || (paused && call.done)
 		w.mu.Unlock()
 		if gone && !call.dup {
 			call.conn.clientGone()
